@@ -1232,6 +1232,48 @@ func (c *Ctx) c18Batch() {
 			}
 		}
 	}
+	// field coverage: every field of a stored message (identifier components included) and of the batch is an item of the
+	// writer's script — a field that is "re-derived on reading" round-trips only for the values the derivation assumes
+	{
+		have := map[string]bool{}
+		for _, w := range ws {
+			have[w] = true
+		}
+		hasItem := func(name string) bool {
+			for w := range have {
+				if strings.Contains(w, ":"+name+":") || strings.Contains(w, "("+name+")") {
+					return true
+				}
+			}
+			return false
+		}
+		var wantItems []string
+		if mt := c.P.Named("outputstream", "Message"); mt != nil {
+			for _, fv := range structFields(mt) {
+				if st, ok := fv.Type().Underlying().(*types.Struct); ok {
+					for i := 0; i < st.NumFields(); i++ {
+						if st.Field(i).Exported() {
+							wantItems = append(wantItems, fv.Name()+"."+st.Field(i).Name())
+						}
+					}
+				} else {
+					wantItems = append(wantItems, fv.Name())
+				}
+			}
+		}
+		if bt := c.P.Named("outputstream", "messageBatch"); bt != nil {
+			for _, fv := range structFields(bt) {
+				wantItems = append(wantItems, fv.Name())
+			}
+		}
+		for _, it := range wantItems {
+			r.Check(hasItem(it), "C18.F4", enc.Name(), "field "+it+" is part of the stored encoding", c.P.Pos(enc.Node().Pos()), "an item of the writer's script",
+				"the batch writer no longer stores "+it+" (the reader re-derives or defaults it): a batch whose "+it+" is not what the derivation assumes decodes to different ids, text or recipients than were added")
+		}
+		if len(wantItems) < 5 {
+			r.Break("C18.F4: only %d fields of the stored batch types found", len(wantItems))
+		}
+	}
 	// cursor freshness: between two accesses of buffer[<cursor>:…] the cursor is advanced on every path; and index loops of
 	// the codec stop before the length (`<`)
 	for _, fi := range []*load.FuncInfo{enc, dec} {
